@@ -288,6 +288,8 @@ def run(ctx):
     n_domains = (10 if sweep else 30) if thorough else 7
     n_orders = (2 if sweep else 24) if thorough else 4
     for d in range(n_domains):
+        if ctx.over_budget():
+            break
         w = gen.gen_world(rng, max_arity=2)
         acts = [gen_action(rng, w) for _ in range(6 if thorough else 4)]
         acts = [a for a in acts if len(a[2]) > 1]
